@@ -15,7 +15,7 @@ import json, os, random, re, sys, time, hashlib, shutil, zlib
 import vlib
 from vlib import VERIF
 
-MC = [("MC_v3q", 300, "both"), ("MC_v3r", 600, "both"), ("MC_v3t", 2400, "thorough")]
+MC = [("MC_v3q", 300, "both"), ("MC_v3r", 600, "both"), ("MC_v3w", 600, "both"), ("MC_v3t", 2400, "thorough")]
 SIMS = [("Sim_v3a", 120, 1200, 60), ("Sim_v3b", 80, 800, 60), ("Sim_v3c", 60, 600, 60)]
 EPILOGUE = [{"k": "drain"}, {"k": "heal"}, {"k": "drain"}]
 # live mode: the reconciles of the schedule run only if the REAL watchers have woken their object; at the end the real work
